@@ -57,6 +57,15 @@ def _program_value(kind, c, t):
     return c[0] * (math.exp(inner) if kind == "exponential" else math.log(inner))
 
 
+def _twin_fallback(mode, program):
+    """programmes that do NOT pass through the initial temperature at t = 0 (a fitted thermostat curve)"""
+    out = realrun.proc_fallback(mode, program)
+    if program:
+        for f in out:
+            f["tc0"] = f["tc0"] - 1.25
+    return out
+
+
 def concrete_twin(inp):
     """isothermal and non-isothermal models started from the same conditions agree at step 0"""
     if not realrun.admissible_process(inp):
@@ -64,7 +73,7 @@ def concrete_twin(inp):
     fam = "non_ideal" if inp["kind"].startswith("non_ideal") else "ideal"
     try:
         a, _, _ = realrun.process(dict(inp, kind=fam + "_isothermal_process", program=None))
-        b, _, _ = realrun.process(dict(inp, kind=fam + "_non_isothermal_process", program=None))
+        b, _, _ = realrun.process(dict(inp, kind=fam + "_non_isothermal_process", program=inp.get("program")))
     except ValueError as e:
         return {"ok": True, "detail": "run rejected: %s" % e}
     bad = []
@@ -114,6 +123,7 @@ def heat(job, kind, mode, tier):
                     got += 1
                     cs = dom + leaf.conds()
                     A, dt = ps.A.t, ps.dt.t
+                    job.prove(tag + "/starts_at_stated_temperature", cs, lift(m.feed_temperature[0]) != ps.T0.t, R_, inputs, fallback=fb)
                     for k in range(N):
                         J1, J2 = ps.calls[k][1]
                         Tk = lift(m.feed_temperature[k])
@@ -151,27 +161,33 @@ def twin(job, family, mode, tier):
     """isothermal vs non-isothermal model started from the same conditions: equal fluxes and heats at step 0"""
     job.bound(twin_steps=1)
     kinds = [k for k in proc.KINDS if k.startswith(family + "_")]
-    for basis in ("weight", "molar"):
+    for basis, program in (("weight", None), ("molar", None), ("weight", "polynomial")):
         for n_curves, init_perm in (((None, None),) if family == "ideal" else ((2, False), (1, True))):
             a = proc.ProcSetup(kinds[0], mode, basis, None, 1, n_curves=n_curves or 2, initial_permeances=bool(init_perm))
-            b = proc.ProcSetup(kinds[1], mode, basis, None, 1, n_curves=n_curves or 2, initial_permeances=bool(init_perm), mix=a.mix)
+            # the non-isothermal twin also with a temperature programme: step 0 is still the stated initial state
+            b = proc.ProcSetup(kinds[1], mode, basis, program, 1, n_curves=n_curves or 2, initial_permeances=bool(init_perm), mix=a.mix, ncoef=3)
             # the twin shares every input object with the first run
             b.cond, b.curves, b.dt, b.prec, b.membrane = a.cond, a.curves, a.dt, a.prec, a.membrane
             b.pz = a.pz
             b.P0 = getattr(a, "P0", None)
             a.P0 = getattr(a, "P0", None)
-            dom = a.domain()
-            inputs = a.inputs()
-            fb = [dict(f) for f in realrun.proc_fallback(mode, None)]
-            tag = "C03/twin/%s/%s/%s/c%s/ip%d" % (family, mode, basis, n_curves or 0, int(bool(init_perm)))
+            dom = a.domain() + (b.domain() if program else [])
+            inputs = dict(b.inputs(), **a.inputs()) if program else a.inputs()
+            fb = [dict(f, program=program) if program else dict(f) for f in _twin_fallback(mode, program)]
+            tag = "C03/twin/%s/%s/%s/c%s/ip%d" % (family, mode, basis, n_curves or 0, int(bool(init_perm))) + ("/" + program if program else "")
             with Patches() as pt:
                 a.install(pt)
                 b.calls = a.calls
 
                 def run():
+                    a.cond.temperature_program = None
                     ma = a.run()
                     ja = list(a.calls)
-                    mb = b.run()
+                    a.cond.temperature_program = b.tprog  # shared Conditions object: the twin differs in the programme only
+                    try:
+                        mb = b.run()
+                    finally:
+                        a.cond.temperature_program = None
                     return ma, mb
 
                 got = 0
